@@ -121,7 +121,13 @@ def run(h, case):
     lo = 0 if det == 'menger' else 1
     if not check_wellformed(h, whole, n, lo):
         return whole
-    t1 = Fr(1, 100) if det == 'kneedle' else Fr(1, 1000)
+    # second, with a symbolic gate threshold (exact ties gate == t1 are part of the symbolic region)
+    t1 = h.real('t1', nn=True)
+    if not h.sym:
+        h.assume(t1 >= 0, 't1 >= 0')
+    whole = h.ints(mod.multi_knee(pts, h.num(t1), t2))
+    if not check_wellformed(h, whole, n, lo):
+        return whole
     if n > t2:
         coef = L.linear_fit.linear_fit_points(pts)
         gate = L.linear_fit.smape_points(pts, coef)
@@ -133,13 +139,34 @@ def run(h, case):
             h.prove(k is not None, 'detector answered on the whole curve')
             if k is not None:
                 k = int(k)
-                left = h.ints(mod.multi_knee(pts[0:k + 1]))
-                right = h.ints(mod.multi_knee(pts[k + 1:]))
+                left = h.ints(mod.multi_knee(pts[0:k + 1], h.num(t1), t2))
+                right = h.ints(mod.multi_knee(pts[k + 1:], h.num(t1), t2))
                 h.prove(whole == sorted(left + [k] + [k + 1 + v for v in right]), 'result == {k} + result on points[0..k] + (k+1 + result on points[k+1..])')
     else:
         h.prove(whole == [], 'empty when the curve has at most t2 points')
     h.prove(not h.writes(), 'arguments unmodified')
     return whole
+
+
+def repair(R, case, inputs):
+    """tie witnesses: move t1 onto the float64 SMAPE the real package computes for the end-point line of some sub-range (and onto 0)"""
+    import numpy as np
+    if case['layer'] != 'L0':
+        return
+    curve = POOL[case['curve']]
+    pts = np.array([[float(a), float(Fr(inputs.get('y%d' % i, b)) if i in case['pos'] else b)] for i, (a, b) in enumerate(curve)], dtype=float)
+    n = len(pts)
+    vals = [0.0]
+    for l in range(n):
+        for r in range(l + 3, n + 1):
+            seg = pts[l:r]
+            v = float(R.linear_fit.smape_points(seg, R.linear_fit.linear_fit_points(seg)))
+            if v == v and v not in vals:
+                vals.append(v)
+    for v in vals[:10]:
+        alt = dict(inputs)
+        alt['t1'] = str(Fr(v))
+        yield alt
 
 
 LEVEL_TEXT = ('Bounded symbolic model checking. L1: the real multi_knee driver runs over a free single-knee oracle K(l,r) (any integer inside the detector\'s range contract) and a free gate '
